@@ -17,6 +17,10 @@ fn run_alloc(out: &mut impl Write, tag: &str, src: usize, size: usize, script: V
     let r = quiet_catch(move || cm::verif_allocate_jit_memory(src, size));
     let evs = shim::stop_log();
     shim::set_script(vec![]);
+    if matches!(&r, Err(m) if m == ACCESSOR_ABSENT) {
+        note_absent(out, "allocate_jit_memory(&FuncPtrInternal, usize) -> *mut u8");
+        return;
+    }
     let res = match &r {
         Ok(a) => format!("{:x}", a),
         Err(m) => {
